@@ -309,9 +309,11 @@ func read(r typedReader, bx *bytex.BufferX, rx *bytex.ReaderX, it item) (string,
 		return fmt.Sprintf("f64bits:%x", math.Float64bits(v)), err
 	case "str":
 		v, err := r.ReadString()
+		keepString(v, err)
 		return fmt.Sprintf("%q", v), err
 	case "lstr":
 		v, err := r.ReadLimitString(it.Limit)
+		keepString(v, err)
 		return fmt.Sprintf("%q", v), err
 	case "raw":
 		var v []byte
@@ -342,10 +344,31 @@ type keptSlice struct {
 // kept holds the raw-bytes results handed out during the current scenario (the harness is sequential).
 var kept []keptSlice
 
+// keptStrings holds every string a reader returned together with a private copy of its contents: a returned string is a
+// value; it must still read the same after the buffer it was decoded from has been reset, refilled or scribbled over.
+type keptString struct{ v, was string }
+
+var keptStrings []keptString
+
+func keepString(v string, err error) {
+	if err == nil && len(v) > 0 {
+		keptStrings = append(keptStrings, keptString{v, strings.Clone(v)})
+	}
+}
+
 func checkKept() (string, bool) {
 	for i, k := range kept {
 		if string(k.b) != k.was {
 			return fmt.Sprintf("raw read %d returned %q; after later reads the same slice holds %q", i, k.was, string(k.b)), false
+		}
+	}
+	return "", true
+}
+
+func checkKeptStrings() (string, bool) {
+	for i, k := range keptStrings {
+		if k.v != k.was {
+			return fmt.Sprintf("string read %d returned %q; after the buffer was reused the same string value reads %q", i, k.was, k.v), false
 		}
 	}
 	return "", true
@@ -361,7 +384,7 @@ func runC10(t *testing.T, sci interface{}, keepLog bool) (o *hx.Outcome) {
 			log = append(log, "VIOLATION "+class+": "+o.Msg)
 		}
 	}
-	kept = nil
+	kept, keptStrings = nil, nil
 	defer func() {
 		if r := recover(); r != nil {
 			fail("panic", "decoder panicked: %v", r)
@@ -369,7 +392,10 @@ func runC10(t *testing.T, sci interface{}, keepLog bool) (o *hx.Outcome) {
 		if msg, ok := checkKept(); !ok {
 			fail("raw-result-overwritten-later", "%s", msg)
 		}
-		kept = nil
+		if msg, ok := checkKeptStrings(); !ok {
+			fail("string-changed-after-buffer-reuse", "%s", msg)
+		}
+		kept, keptStrings = nil, nil
 		o.LogHash = hashLines(log)
 		if keepLog {
 			o.Log = log
@@ -435,6 +461,20 @@ func runC10(t *testing.T, sci interface{}, keepLog bool) (o *hx.Outcome) {
 			if b.Len() != 0 {
 				fail("buffer-not-empty", "%d bytes left after reading everything back", b.Len())
 			}
+			// the caller reuses the buffer and its own input slice: strings handed out before must not change (checked on exit);
+			// the no-copy raw results are allowed to alias the input, so they are judged before the reuse
+			if msg, ok := checkKept(); !ok {
+				fail("raw-result-overwritten-later", "%s", msg)
+			}
+			kept = nil
+			b.Reset()
+			for i := 0; i < len(data); i++ {
+				b.WriteU8(0x5a)
+			}
+			for i := range data {
+				data[i] ^= 0xa5
+			}
+			o.Counts["buffer-reused-after-reads"]++
 			return
 		}
 		// stream: reference = buffer reader over what the faulty source will deliver; subject = stream reader over the faulty source
